@@ -21,10 +21,12 @@ def correspondence(ctx):
     rc, o = ctx.run([binp, 'gen', out, str(n)])
     if rc != 0:
         raise V.BuildError('c18 harness failed: ' + o[-2000:])
-    corr = V.evaluate_case_file(ctx, out, ['model.Subst'])
+    corr = V.evaluate_case_file(ctx, out, ['model.Subst', 'model.Sign'])
     corr.rule = ("random layouts (0-3 steps, 0-2 inspections) whose every string field carries generated text with markers "
                  "(adjacent, nested-looking, dangling, unknown names), dictionaries of 0-6 entries with valid and invalid names, "
-                 "values that are markers themselves; each case run 4 times with differently built maps. "
+                 "values that are markers themselves; each case run 4 times with differently built maps; histories on ONE layout value "
+                 "(three substitutions with two dictionaries); layouts whose strings are byte strings that are not valid UTF-8 "
+                 "(built by hand, observables hex-encoded). "
                  "non-trivial = non-empty dictionary and at least one step or inspection; distinct = distinct input JSON")
     if ctx.tier == 'thorough':
         # string level: 200 000 random (text, dictionary) pairs through SubstituteParameters, the extracted
